@@ -125,6 +125,33 @@ Proof.
 Qed.
 Print Assumptions C04_contiguous_none_unused.
 
+(* the DOF location table: IF every cell maps the reference location of a local basis function to one and the same point
+   loc(d) for the global number d it carries ("mapped reference locations of a shared entity coincide" — a per-element fact
+   checked by the oracle), THEN the scatter loop of AbstractBasis.__init__ leaves loc(d) in the table for EVERY number of the
+   contiguous range, whatever the order of the cells (last write wins among equal values) *)
+Theorem C04_doflocs_consistent :
+  forall (A : Type) (loc : nat -> A) (zero : A) dim nd ed fd id nv ne nf nt t t2e t2f (X : list (list A)) (d : nat),
+    wf dim fd nv ne nf nt t t2e t2f -> onto dim nd ed fd nv ne nf nt t t2e t2f ->
+    let D := gen_dofs_init dim nd ed fd id 0 nv ne nf nt t t2e t2f in
+    length X = length (D_element D) ->
+    (forall r, r < length (D_element D) -> length (nth r X []) = length (nth r (D_element D) []) /\
+       forall e, e < length (nth r (D_element D) []) -> nth e (nth r X []) zero = loc (nth e (nth r (D_element D) []) 0)) ->
+    d < total dim nd ed fd id nv ne nf nt ->
+    nth d (scatter_doflocs zero (total dim nd ed fd id nv ne nf nt) (D_element D) X) zero = loc d.
+Proof.
+  intros A loc zero dim nd ed fd id nv ne nf nt t t2e t2f X d Hwf Hon D HL HX Hd. unfold D in *.
+  rewrite gen_dofs_init_is_model in *. destruct Hwf as [Hfd [Ht [Ht2e Ht2f]]]. destruct Hon as [O1 [O2 O3]].
+  apply scatter_consistent; [exact HL | |].
+  - intros r Hr. destruct (HX r Hr) as [L V]. split; [exact L|]. split; [|exact V].
+    intros i Hi.
+    assert (Hin : In i (concat (D_element (dofs_init dim nd ed fd id 0 nv ne nf nt t t2e t2f)))).
+    { apply in_concat. exists (nth r (D_element (dofs_init dim nd ed fd id 0 nv ne nf nt t t2e t2f)) []).
+      split; [now apply nth_In | exact Hi]. }
+    apply (element_in_range dim nd ed fd id 0 nv ne nf nt t t2e t2f Hfd Ht Ht2e Ht2f) in Hin. lia.
+  - apply (all_used_in dim nd ed fd id 0 nv ne nf nt t t2e t2f Hfd Ht Ht2e Ht2f O1 O2 O3). lia.
+Qed.
+Print Assumptions C04_doflocs_consistent.
+
 (* C11 supplies the hypotheses for the tables the library derives: t2f / t2e of ANY cell list are in range and onto *)
 Theorem C04_hypotheses_hold_for_derived_tables :
   forall cells indices : list (list nat),
